@@ -196,27 +196,58 @@ func c18R2(c *Ctx, id string) {
 		da := c.fn("bbolt.(*DB).allocate")
 		ok := false
 		detail := "no `err == ErrMaxSizeReached` test on db.mmap's error"
+		isLimitGlobal := func(v ssa.Value) bool {
+			ld, isLd := v.(*ssa.UnOp)
+			if !isLd {
+				return false
+			}
+			g, isG := ld.X.(*ssa.Global)
+			return isG && g.Name() == "ErrMaxSizeReached"
+		}
 		for _, mm := range plainCallsIn(da, "bbolt.(*DB).mmap") {
 			eachInstr(da, func(in ssa.Instruction) {
-				bo, isBin := in.(*ssa.BinOp)
-				if !isBin || bo.Op != token.EQL {
+				// the test "is it the size-limit error": err == E, E == err, err != E, errors.Is(err, E), possibly negated
+				var cond ssa.Value
+				limitEdge := 0
+				switch x := in.(type) {
+				case *ssa.BinOp:
+					if x.Op != token.EQL && x.Op != token.NEQ {
+						return
+					}
+					if !((x.X == ssa.Value(mm) && isLimitGlobal(x.Y)) || (x.Y == ssa.Value(mm) && isLimitGlobal(x.X))) {
+						return
+					}
+					cond = x
+					if x.Op == token.NEQ {
+						limitEdge = 1
+					}
+				case *ssa.Call:
+					if calleeOf(x).Name() != "errors.Is" || len(x.Call.Args) != 2 || x.Call.Args[0] != ssa.Value(mm) || !isLimitGlobal(x.Call.Args[1]) {
+						return
+					}
+					cond = x
+				default:
 					return
 				}
-				ld, isLd := bo.Y.(*ssa.UnOp)
-				if !isLd {
-					return
+				// look through negations
+				for changed := true; changed; {
+					changed = false
+					for _, r := range *cond.Referrers() {
+						if u, ok := r.(*ssa.UnOp); ok && u.Op == token.NOT {
+							cond = u
+							limitEdge = 1 - limitEdge
+							changed = true
+							break
+						}
+					}
 				}
-				g, isG := ld.X.(*ssa.Global)
-				if !isG || g.Name() != "ErrMaxSizeReached" || bo.X != ssa.Value(mm) {
-					return
-				}
-				for _, r := range *bo.Referrers() {
+				for _, r := range *cond.Referrers() {
 					iff, isIf := r.(*ssa.If)
 					if !isIf {
 						continue
 					}
 					for _, ret := range returnsOf(da) {
-						if blockDominatedByEdge(iff.Block(), iff.Block().Succs[0], ret.Block()) {
+						if blockDominatedByEdge(iff.Block(), iff.Block().Succs[limitEdge], ret.Block()) {
 							ok = returnedValue(ret, 1) == ssa.Value(mm)
 							if !ok {
 								detail = "on `err == ErrMaxSizeReached` a different (wrapped) error is returned"
